@@ -1,10 +1,149 @@
-import PhysisModel.Proofs.ExcelRecord
+import PhysisModel.Proofs.ExcelIndex
+/-!
+# C05 — Excel sheets decode to the cell values stored in them
+
+Property theorems only; helper lemmas are in `Proofs/Excel*.lean`.  `Spec/Excel.lean` defines the
+abstract values (schema, rows, typed cells), the encoders `encodeExh` / `encodeExd` and the
+decidable well-formedness predicates; `Model/Exh.lean`, `Model/Exd.lean` mirror the Rust reader
+(with fix patches C05-01..03 applied).  `toExh`, `toExd`, `toData` (in `Proofs/`) map abstract
+values to the reader's value types constructor by constructor.
+-/
 namespace Physis.C05
 open Physis Physis.Spec.Excel Physis.Exh Physis.Exd Physis.Proofs.Excel
 
+/-- `EXH::from_existing` on an encoded header returns exactly the schema's fixed-region size, row
+count, column definitions (type, offset), pages and languages, for every well-formed schema. -/
 theorem c05_exh_roundtrip (s : Schema) (h : WFschema s) :
     Exh.fromExisting (encodeExh s) = some (toExh s) := exh_roundtrip s h
 
+/-- a sub-row schema with a string, two packed bools sharing a byte and a u16 -/
+def exSchema : Schema where
+  version := 3
+  dataOffset := 8
+  subrows := true
+  rowCount := 2
+  columns := [⟨.string, 0⟩, ⟨.packedBool 0, 4⟩, ⟨.packedBool 7, 4⟩, ⟨.uint16, 6⟩]
+  pages := [⟨0, 2⟩]
+  languages := [.none, .en]
+
+/-- non-vacuity of `WFschema` -/
+example : WFschema exSchema := by decide
+
+theorem encodeExd_length (s : Schema) (rows : List Row) :
+    (encodeExd s rows).length = 32 + 8 * rows.length + (((chunksOf s rows).map (·.2)).flatten).length := by
+  simp only [encodeExd, List.length_append, encodeExdHeader_length, encodeIndex_length]
+  simp [chunksOf]
+
+/-- `EXD::from_existing` on an encoded page returns the index `(row id, absolute chunk offset)` of
+every stored row, in order, and the whole file as data view. -/
+theorem c05_exd_index_roundtrip (s : Schema) (rows : List Row) (h : WFrows s rows) :
+    Exd.fromExisting (encodeExd s rows) = some (toExd s rows) := by
+  have := h.2.1
+  rw [encodeExd_length] at this
+  exact exd_parse s rows (by omega)
+
+/-
+The full statement of the design — not provable for the code as it is, see
+`c05_single_subrow_witness` (open finding `exd.single-subrow`):
+
+theorem c05_read_row (s : Schema) (rows : List Row) (hs : WFschema s) (hr : WFrows s rows)
+    (r : Row) (hmem : r ∈ rows) :
+    ∃ exh exd, Exh.fromExisting (encodeExh s) = some exh ∧
+      Exd.fromExisting (encodeExd s rows) = some exd ∧
+      readRow exd exh r.id = .ok (r.subs.map (·.map toData))
+-/
+
+/-- Reading a stored row id from the encoded page with the encoded header returns one record per
+stored sub-row, whose cells are the stored cells column by column (all 19 column types; strings,
+every packed-bool bit, integers and float bit patterns exactly) — for every well-formed schema and
+row set, excluding only rows in the class of the open finding `exd.single-subrow`. -/
+theorem c05_read_row_partial (s : Schema) (rows : List Row) (hs : WFschema s) (hr : WFrows s rows)
+    (r : Row) (hmem : r ∈ rows) (hns : singleSubrow s r = false) :
+    ∃ exh exd, Exh.fromExisting (encodeExh s) = some exh ∧
+      Exd.fromExisting (encodeExd s rows) = some exd ∧
+      readRow exd exh r.id = .ok (r.subs.map (·.map toData)) := by
+  refine ⟨toExh s, toExd s rows, exh_roundtrip s hs, c05_exd_index_roundtrip s rows hr, ?_⟩
+  obtain ⟨hnd, hsmall, hrows⟩ := hr
+  obtain ⟨pre, post, rfl⟩ := List.append_of_mem hmem
+  have hnotin : r.id ∉ (chunksOf s pre).map (·.1) := by
+    simp only [List.map_append, List.map_cons] at hnd
+    have := (List.nodup_append.mp hnd).2.2
+    intro hin
+    simp only [chunksOf, List.map_map, Function.comp_def] at hin
+    exact this r.id hin r.id (List.mem_cons_self ..) rfl
+  have hchunks : chunksOf s (pre ++ r :: post)
+      = chunksOf s pre ++ (r.id, encodeRow s r) :: chunksOf s post := by
+    simp [chunksOf]
+  have hfind := find_index (chunksOf s pre) (chunksOf s post) r.id (encodeRow s r)
+    (32 + 8 * (pre ++ r :: post).length) hnotin
+  rw [← hchunks] at hfind
+  have hlenfile := encodeExd_length s (pre ++ r :: post)
+  -- the file around the chunk
+  have hfile : encodeExd s (pre ++ r :: post) =
+      (encodeExdHeader (8 * (pre ++ r :: post).length)
+          (((chunksOf s (pre ++ r :: post)).map (·.2)).flatten).length
+        ++ encodeIndex (chunksOf s (pre ++ r :: post)) (32 + 8 * (pre ++ r :: post).length)
+        ++ ((chunksOf s pre).map (·.2)).flatten)
+      ++ (encodeRow s r ++ ((chunksOf s post).map (·.2)).flatten) := by
+    simp only [encodeExd, hchunks, List.map_append, List.map_cons, List.flatten_append,
+      List.flatten_cons, List.append_assoc]
+  have hbody : (((chunksOf s (pre ++ r :: post)).map (·.2)).flatten).length
+      = (((chunksOf s pre).map (·.2)).flatten).length + ((encodeRow s r).length
+        + (((chunksOf s post).map (·.2)).flatten).length) := by
+    simp only [hchunks, List.map_append, List.map_cons, List.flatten_append, List.flatten_cons,
+      List.length_append]
+  have hoff : (UInt32.ofNat (32 + 8 * (pre ++ r :: post).length
+      + (((chunksOf s pre).map (·.2)).flatten).length)).toNat
+      = 32 + 8 * (pre ++ r :: post).length + (((chunksOf s pre).map (·.2)).flatten).length := by
+    rw [UInt32.toNat_ofNat']
+    exact Nat.mod_eq_of_lt (by omega)
+  simp only [readRow, toExd, hfind]
+  refine readRowAt_correct s hs r (hrows r hmem) hns _ _ _ _ hfile ?_ hsmall
+  rw [hoff]
+  simp only [List.length_append, encodeExdHeader_length, encodeIndex_length]
+  simp [chunksOf]
+
+/-- a sub-row sheet with one u16 column -/
+def wSchema : Schema where
+  version := 3
+  dataOffset := 2
+  subrows := true
+  rowCount := 2
+  columns := [⟨.uint16, 0⟩]
+  pages := [⟨0, 2⟩]
+  languages := [.none]
+
+/-- row 5 has exactly one sub-row, row 6 has two -/
+def wRows : List Row := [⟨5, [[.u16 0x1234]]⟩, ⟨6, [[.u16 1], [.u16 2]]⟩]
+
+/-- non-vacuity of `c05_read_row_partial` / `c05_read_row_unknown`: the hypotheses hold for this
+sheet and its row 6 (two sub-rows) -/
+example : WFschema wSchema ∧ WFrows wSchema wRows ∧ singleSubrow wSchema ⟨6, [[.u16 1], [.u16 2]]⟩ = false
+    ∧ (7 : UInt32) ∉ wRows.map (·.id) := by decide +kernel
+
+/-- Open finding `exd.single-subrow`: for a well-formed sub-row sheet, reading the row that has
+exactly one sub-row does **not** return the stored cell (0x1234): the reader infers the sheet kind
+from `row_count > 1`, treats the row as a default-sheet row and decodes the 2-byte sub-row id (0)
+as the cell.  Hence the full `c05_read_row` is false for the code as it is. -/
+theorem c05_single_subrow_witness :
+    WFschema wSchema ∧ WFrows wSchema wRows ∧ singleSubrow wSchema ⟨5, [[.u16 0x1234]]⟩ = true ∧
+    (match Exh.fromExisting (encodeExh wSchema), Exd.fromExisting (encodeExd wSchema wRows) with
+      | some exh, some exd => (match readRow exd exh 5 with | .ok v => some v | .error _ => none)
+      | _, _ => none) = some [[.uint16 0]] := by decide +kernel
+
+/-- An id that is not stored yields nothing. -/
+theorem c05_read_row_unknown (s : Schema) (rows : List Row) (hs : WFschema s) (hr : WFrows s rows)
+    (id : UInt32) (hid : id ∉ rows.map (·.id)) :
+    ∃ exh exd, Exh.fromExisting (encodeExh s) = some exh ∧
+      Exd.fromExisting (encodeExd s rows) = some exd ∧
+      readRow exd exh id = .error .none := by
+  refine ⟨toExh s, toExd s rows, exh_roundtrip s hs, c05_exd_index_roundtrip s rows hr, ?_⟩
+  have : id ∉ (chunksOf s rows).map (·.1) := by
+    simpa only [chunksOf, List.map_map, Function.comp_def] using hid
+  simp only [readRow, toExd, find_index_none _ id _ this]
+
+/-- `EXD::calculate_filename` builds `<name>_<start id>[_<language code>].exd`; `Language::None`
+has no suffix. -/
 theorem c05_filename (name : Bytes) (l : Lang) (p : Page) :
     calculateFilename name (toModelLang l) (toModelPage p) = pageFileName name l p := by
   cases l <;> simp [calculateFilename, pageFileName, toModelLang, toModelPage, fmtNat, decimal,
